@@ -66,6 +66,8 @@ def configs(ss, Recount):
                                                      demographics=ss.Deaths(death_rate=25), dur=8, rand_seed=seed, verbose=0, **kw)
     cf['sir-coarse-and-fine'] = lambda seed, **kw: ss.Sim(n_agents=150, diseases=[ss.SIR(name='coarse', dt=2.0, init_prev=0.1, beta=0.08), ss.SIR(name='fine', dt=0.5, init_prev=0.05, beta=0.1)], networks=ss.RandomNet(n_contacts=4),
                                                           analyzers=Recount(name='recount', dt=0.5), dur=8, rand_seed=seed, verbose=0, **kw)
+    cf['sis-everyone-infected-deaths'] = lambda seed, **kw: ss.Sim(n_agents=300, diseases=ss.SIS(init_prev=1.0, beta=0.5, dur_inf=ss.lognorm_ex(mean=50)), networks=ss.RandomNet(n_contacts=4), analyzers=Recount(name='recount'),
+                                                                   demographics=[ss.Deaths(death_rate=100)], dur=6, rand_seed=seed, verbose=0, **kw)
     cf['fine-disease-fine-births'] = lambda seed, **kw: ss.Sim(n_agents=100, diseases=ss.SIS(dt=0.25, init_prev=0.3, beta=0.2), networks=ss.RandomNet(n_contacts=4, dt=0.25), analyzers=Recount(name='recount', dt=0.25),
                                                      demographics=[ss.Births(birth_rate=400, dt=0.25), ss.Deaths(death_rate=50)], dur=5, rand_seed=seed, verbose=0, **kw)
     cf['pregnancy-hiv'] = lambda seed, **kw: ss.Sim(n_agents=200, diseases=ss.HIV(beta={'mf': [0.1, 0.05], 'prenatal': [0.3, 0]}), networks=[ss.MFNet(), ss.PrenatalNet()],
@@ -111,7 +113,9 @@ def run(ctx):
             ctx.count(('run', name, seed)); ctx.dist('run:' + name)
             probe = base.analyzers.recount
             for ti, what, got, want in probe.problems[:3]:
-                ctx.violation(f'{name}: step {ti}: result {what} = {got}, recount from agent state gives {want}', key | dict(ti=ti, result=what))
+                w = key | dict(ti=ti, result=what)
+                if 'prevalence out of' in what: w['finding_key'] = 'n-infected-counts-agents-who-died-this-step'      # flags of agents who died in this step are still set while the denominator counts the living
+                ctx.violation(f'{name}: step {ti}: result {what} = {got}, recount from agent state gives {want}', w)
             R = flat_results(base)
             # cumulative series vs running sums (oracle) and vs the model with the generated bounds (correspondence)
             pairs = [('cum_deaths', 'new_deaths', 'cum_deaths_upper_gen')]
